@@ -340,10 +340,12 @@ def job_search(cfg):
         mesh = simlib.mesh_from_arrays([(gg.elemType.name, gg.connect) for gg in mesh.dict_groupElem.values()], Xd)
     if cfg.get("motion") == "R":
         mesh.Rotate(float(np.degrees(np.arctan2(0.8, 0.6))), (0.3, 0.2, 0.0))
+    if cfg.get("motion") == "S":
+        mesh.Symmetry((0.3, 0.0, 0.0), (1.0, 0.0, 0.0))
     g = mesh.groupElem
     dim, order = g.dim, g.order
     X = mesh.coord
-    key = f"{et} point location through the element search" + (" (rotated mesh)" if cfg.get("motion") else "") + (" (tapered, non-parallelogram elements)" if cfg.get("distorted") else "")
+    key = f"{et} point location through the element search" + ({"R": " (rotated mesh)", "S": " (mirrored mesh)"}.get(cfg.get("motion"), "")) + (" (tapered, non-parallelogram elements)" if cfg.get("distorted") else "")
     tol_q = TOL if not cfg.get("distorted") else Fraction(1, 10 ** 8)  # iterative inverse map: its own stopping tolerance
     res.functions |= {"Mesh.Evaluate_dofsValues_at_coordinates", "_GroupElem.Get_Mapping", "_GroupElem._Get_Mapping", "_GroupElem._Get_nearby_elements", "_GroupElem.Get_Elements_Nodes", "_GroupElem._Get_coord_Near"}
     monos = monomials_total(dim, order)
@@ -446,6 +448,8 @@ def main():
     for et in ["TRI3", "TRI6", "TETRA4"] + (["TRI10", "TETRA10"] if tier == "thorough" else []):
         configs.append({"kind": "search", "elem": et})
     configs.append({"kind": "search", "elem": "TRI3", "motion": "R"})
+    for et in ["TRI3", "TETRA4"] + (["QUAD4", "HEXA8", "PRISM6"] if tier == "thorough" else []):
+        configs.append({"kind": "search", "elem": et, "motion": "S"})
     for et in ["QUAD4", "HEXA8"] + (["QUAD8", "QUAD9", "HEXA20"] if tier == "thorough" else []):
         configs.append({"kind": "search", "elem": et, "distorted": True})
     for et in ["TRI3", "TRI6", "TETRA4"]:
